@@ -274,7 +274,17 @@ class FortranAST:
                     for obj in added_entities:
                         parent_scope.children.remove(obj)
                     added_entities = []
+                    # A scope cannot become a child of itself or of one of its own
+                    # descendants (an INCLUDE inside included content that leads
+                    # back to the including file)
+                    enclosing = []
+                    scope = parent_scope
+                    while scope is not None and not any(scope is i for i in enclosing):
+                        enclosing.append(scope)
+                        scope = scope.parent
                     for child in include_ast.inc_scope.children:
+                        if any(child is i for i in enclosing):
+                            continue
                         added_entities.append(child)
                         if parent_scope is not None:
                             parent_scope.add_child(child)
